@@ -189,6 +189,29 @@ func DefaultBESSConf() pfcpiface.Conf {
 	return c
 }
 
+// DefaultUP4Conf is the agent configuration for the P4Runtime (UP4) datapath.
+func DefaultUP4Conf() pfcpiface.Conf {
+	var c pfcpiface.Conf
+	c.EnableP4rt = true
+	c.P4rtcIface.SliceID = 0
+	c.P4rtcIface.AccessIP = N3Addr + "/32"
+	c.P4rtcIface.P4rtcServer = "onos"
+	c.P4rtcIface.P4rtcPort = "51001"
+	c.P4rtcIface.DefaultTC = 3
+	c.P4rtcIface.QFIToTC = map[uint8]uint8{}
+	c.CPIface.EnableUeIPAlloc = true
+	c.CPIface.UEIPPool = "10.60.0.0/22"
+	c.CPIface.HTTPPort = "8080"
+	c.ReadTimeout = 15
+	c.RespTimeout = "2s"
+	c.MaxReqRetries = 5
+	c.HeartBeatInterval = "5s"
+	c.EnableEndMarker = true
+	c.N4Addr = AgentIP
+	c.LogLevel = zap.InfoLevel
+	return c
+}
+
 // StartAgent boots a new incarnation with r.Conf and returns when it is
 // quiescent (listening) or has died.
 func (r *Run) StartAgent() int {
